@@ -57,10 +57,17 @@ def generate(r):
     lines.append("fn classes(k) { for i in k.times() { class G { init() { self.p = 1; self.q = 2; self.r = 3; } m() { 'G' } n(x) { x } } G(); } k }")
     # a second module with call sites of its own (every module numbers its cache slots from zero)
     lines.insert(0, "import self.peer;")
+    lines.insert(1, "import self.peer:{PBase};")
+    # a class of this module extending a class of the other module, with super calls across the module boundary
+    lines.insert(2, "class PS : PBase { m() { 'PS>' + super.m() } t() { 'PS.t>' + super.t() } u() { super.u() + 1 } }")
+    # a method and a callable field of the same name in one class (inherited or own): the field wins whenever it is set
+    lines.append("class MBase { m() { 'mbase-method' } }")
+    lines.append("class Both : MBase { init(shadow) { self.p = 5; self.q = 6; self.r = 7; if shadow { self.m = || 'both-field'; } } n(x) { x + self.p } }")
+    lines.append("class Own { init(shadow) { self.p = 5; self.q = 6; self.r = 7; if shadow { self.m = || 'own-field'; } } m() { 'own-method' } n(x) { x + self.p } }")
     header = len(lines)
 
     def receiver():
-        kind = r.choice(["s", "s", "d", "d", "d", "sh", "flip", "flipm"])
+        kind = r.choice(["s", "s", "d", "d", "d", "sh", "flip", "flipm", "both", "own", "ps", "pbase"])
         base = r.randint(1, 50) * 10
         if kind == "s":
             name, order, tag = r.choice(static)
@@ -73,6 +80,14 @@ def generate(r):
             return "mk%d(%d)" % (i, base), tag, {"p": base + order.index("p"), "r": base + order.index("r")}, 0
         if kind == "sh":
             return "Sh()", "shadow", {"p": 7, "r": 9}, 0
+        if kind in ("both", "own"):
+            shadow = r.random() < 0.6
+            name = "Both" if kind == "both" else "Own"
+            return "%s(%s)" % (name, "true" if shadow else "false"), ("%s-field" % name.lower() if shadow else None), {"p": 5, "r": 7}, 0
+        if kind == "ps":
+            return "PS(%d)" % base, "PS>PBase.m", {"p": base, "r": base + 2}, 0
+        if kind == "pbase":
+            return "PBase(%d)" % base, "PBase.m", {"p": base, "r": base + 2}, 0
         if kind == "flip":
             shadow = r.random() < 0.5
             return "Flip(%s)" % ("true" if shadow else "false"), ("flip-field" if shadow else None), {"p": 3, "r": 5}, 0
@@ -84,7 +99,9 @@ def generate(r):
             lines.append("garbage(%d);" % r.choice([5, 50, 300]))
         if r.random() < 0.25:
             lines.append("classes(%d);" % r.choice([1, 3, 8]))
-        site = r.choice(["m", "p", "q", "n", "mix", "bound", "incr", "peer", "peer", "launch", "launch"])
+        site = r.choice(["m", "p", "q", "n", "mix", "bound", "incr", "peer", "peer", "launch", "launch", "peerm", "peerm"])
+        if site == "peerm" and not (expr.startswith("PS(") or expr.startswith("PBase(")):
+            site = "m"
         if site == "m":
             if tag is None:
                 lines.append("try { print(callm(%s)); } catch e: Error { print('no m'); }" % expr)
@@ -109,6 +126,14 @@ def generate(r):
         elif site == "incr":
             lines.append("print(incr(%s));" % expr)
             expect.append(str(fields["r"] + 2))
+        elif site == "peerm":
+            # the other module's own invoke sites (several method names) on its base class and on this module's subclass
+            if expr.startswith("PS("):
+                lines.append("print(peer.callm(%s), peer.callt(%s), peer.callu(%s), peer.calln(%s, 1));" % ((expr,) * 4))
+                expect.append("PS>PBase.m PS.t>PBase.t 8 %d" % (1 + fields["p"]))
+            else:
+                lines.append("print(peer.callm(%s), peer.callt(%s), peer.callu(%s), peer.calln(%s, 1));" % ((expr,) * 4))
+                expect.append("PBase.m PBase.t 7 %d" % (1 + fields["p"]))
         elif site == "peer":
             # the same receiver through the other module's sites
             lines.append("print(peer.getr(%s), peer.getp(%s));" % (expr, expr))
@@ -123,7 +148,10 @@ def generate(r):
                 continue
             lines.append("if true { let o = %s; print(callm(o), getp(o), calln(o, 1)); }" % expr)
             expect.append("%s %d %d" % (tag, fields["p"], 1 + fields["p"] + n_extra))
-    peer = ("export fn getr(o) { o.r }\nexport fn getp(o) { o.p }\nexport fn callm(o) { o.m() }\n"
+    peer = ("export class PBase { init(base) { self.p = base; self.q = base + 1; self.r = base + 2; } m() { 'PBase.m' } "
+            "t() { 'PBase.t' } u() { 7 } n(x) { x + self.p } }\n"
+            "export fn getr(o) { o.r }\nexport fn getp(o) { o.p }\nexport fn callt(o) { o.t() }\nexport fn callu(o) { o.u() }\n"
+            "export fn callm(o) { o.m() }\nexport fn calln(o, x) { o.n(x) }\n"
             "export fn signal(ch, o) { ch <- o.r; }\n")
     program = workloads.program("classes", lines, {"/sim/peer.lay": peer})
     program["header"] = header
